@@ -199,13 +199,26 @@ struct HoldsAl { char c; Al16 a; char t; };
 template <typename T> struct Box { T t; char c; };
 struct UsesBox { Box<char> bc; Box<long> bl; Box<pmf_t> bp; char tail; };
 struct FnPtrs { void (*f)(int); int (Plain::*g)(); void *p; char c; };
+// empty-base optimisation and the cases where the ABI must NOT apply it (a base may not share its address with a member of
+// the same type): the first member moves off offset 0
+struct TaggedE : Empty { char c; };
+struct EboD0 : Empty { int x; };
+struct EboD1 : Empty { Empty first; int x; };
+struct EboD2 : Empty { TaggedE first; };
+struct EboD3 : Empty { TaggedE first[2]; short s; };
+struct Empty2 {};
+struct EboD4 : Empty, Empty2 { Empty2 first; char c; long l; };
+struct EboD5 : EboD0 { Empty e; char c; };
+struct EboMid : Plain, Empty { Empty first; char z; };
 """
 # type -> members probed with offsetof (Rust name == C++ name); bit-fields and bases are not named members
 CXX_LAYOUT_MEMBERS = {"Plain": ["a", "b"], "HoldsPM": ["c", "f", "d", "tail"], "Tbl": ["fs", "n"], "Refs": ["r", "d", "c"],
                       "WithBool": ["b", "w", "c16", "c32", "z"], "Enums": ["s", "b", "t", "p", "after"], "Base1": ["x"], "Derived1": ["c"], "Derived2": ["deep"],
                       "Multi": ["m"], "Poly": ["v"], "DerP": ["k", "m"], "Nested": ["in", "arr", "t"], "HoldsEmpty": ["e", "i", "e2"],
                       "Arr": ["m", "ps", "tail"], "Bits": ["c"], "UN": [], "Al16": ["c"], "HoldsAl": ["c", "a", "t"],
-                      "UsesBox": ["bc", "bl", "bp", "tail"], "FnPtrs": ["f", "g", "p", "c"], "pmf_t": [], "pmd_t": []}
+                      "UsesBox": ["bc", "bl", "bp", "tail"], "FnPtrs": ["f", "g", "p", "c"], "pmf_t": [], "pmd_t": [],
+                      "TaggedE": ["c"], "EboD0": ["x"], "EboD1": ["first", "x"], "EboD2": ["first"], "EboD3": ["first", "s"],
+                      "EboD4": ["first", "c", "l"], "EboD5": ["e", "c"], "EboMid": ["first", "z"]}
 
 
 def cxx_layout_part(ck, only=None):
